@@ -16,6 +16,8 @@ import (
 	"flag"
 	"fmt"
 	"os"
+	"regexp"
+	"strconv"
 	"strings"
 
 	"verifharness/vh"
@@ -31,6 +33,8 @@ var (
 	nomodel  = flag.Bool("nomodel", false, "property oracle on the implementation only (search mode / driver unavailable)")
 	hints    = flag.String("hints", "", "file of protocol lines that disagreed; their inputs are pushed through the oracle first")
 )
+
+var reReplayOp = regexp.MustCompile(`xsd\.(?:map|teq|accepts|lexok) [A-Za-z0-9]+ x[0-9a-f]*|xsd\.collapse x[0-9a-f]*`)
 
 type item struct {
 	line string // protocol line for the driver
@@ -227,6 +231,32 @@ func (h *harness) flush() {
 	h.items = h.items[:0]
 }
 
+// strconvCase ties the models of strconv.ParseFloat / ParseInt / ParseUint to the standard library
+// directly, whatever lexical checks the repository puts in front of them.
+func (h *harness) strconvCase(s string) {
+	h.rep.Eval("xsd.pf "+vh.XS(s), true)
+	h.rep.Count("op:strconv")
+	for _, bits := range []int{32, 64} {
+		r := "err"
+		if _, err := strconv.ParseFloat(s, bits); err == nil {
+			r = "ok"
+		}
+		h.add("strconv", fmt.Sprintf("xsd.pf %d %s", bits, vh.XS(s)), r, "ParseFloat")
+	}
+	for _, bits := range []int{8, 16, 32, 64} {
+		r := "err"
+		if v, err := strconv.ParseInt(s, 10, bits); err == nil {
+			r = "ok " + strconv.FormatInt(v, 10)
+		}
+		h.add("strconv", fmt.Sprintf("xsd.pi %d %s", bits, vh.XS(s)), r, "ParseInt")
+		r = "err"
+		if v, err := strconv.ParseUint(s, 10, bits); err == nil {
+			r = "ok " + strconv.FormatUint(v, 10)
+		}
+		h.add("strconv", fmt.Sprintf("xsd.pu %d %s", bits, vh.XS(s)), r, "ParseUint")
+	}
+}
+
 func parseLine(l string) (t *xtype, s string, ok bool) {
 	f := strings.Fields(l)
 	if len(f) < 3 || !strings.HasPrefix(f[0], "xsd.") {
@@ -257,7 +287,8 @@ func main() {
 			fmt.Fprintln(os.Stderr, err)
 			os.Exit(2)
 		}
-		for _, l := range strings.Split(strings.TrimSpace(string(b)), "\n") {
+		// protocol lines, one per line or embedded in a replay JSON written by ./check
+		for _, l := range reReplayOp.FindAllString(string(b), -1) {
 			if t, s, ok := parseLine(l); ok {
 				h.one(t, s, false, false, "replay")
 			} else if f := strings.Fields(l); len(f) == 2 && f[0] == "xsd.collapse" {
